@@ -300,6 +300,10 @@ func GenCVersion(r *rand.Rand, sys semver.System) string {
 		k = 4
 	}
 	s := cverNums(r, k)
+	if sys == semver.NuGet && r.Intn(7) == 0 {
+		// NuGet floating versions, incl. a floating fourth component
+		return cverNums(r, 1+r.Intn(3)) + Pick(r, ".*", ".*", ".*-*", "-*", ".0.*", ".*", "."+cverNums(r, 1)+".*")
+	}
 	switch sys {
 	case semver.PyPI:
 		if r.Intn(8) == 0 {
